@@ -144,11 +144,41 @@ def run(rep, tier, root=None):
     rep.floor("public centroiders", len(pub), 5)
 
     forms = {}
+    CNF = {}        # (function, path condition texts) -> evaluated conditions ((normal form, truth), ...)
+
+    def rank_of(fname, conds, pname="img"):
+        """rank asserted by the path: from the evaluated conditions ndim(p) == k (spelled len(p.shape) or p.ndim)"""
+        nd = Sym("ndim(%s)" % pname)
+        for val, truth in CNF.get((fname, conds), ()):
+            a = val.single_atom() if isinstance(val, Rat) else None
+            if isinstance(a, Fn) and a.name == "cmp" and a.args[0] == "==" and truth:
+                l, r_ = a.args[1], a.args[2]
+                if isinstance(r_, Rat) and r_.single_atom() == nd:
+                    l, r_ = r_, l
+                if isinstance(l, Rat) and l.single_atom() == nd and isinstance(r_, Rat) and r_.real_const() is not None:
+                    return int(r_.real_const())
+        return None
+
+    def thresholded(fname, conds):
+        """False on the paths where the evaluated conditions say threshold == 0"""
+        th = Sym("threshold")
+        for val, truth in CNF.get((fname, conds), ()):
+            a = val.single_atom() if isinstance(val, Rat) else None
+            if isinstance(a, Fn) and a.name == "cmp" and a.args[0] in ("!=", "=="):
+                l, r_ = a.args[1], a.args[2]
+                if isinstance(r_, Rat) and r_.single_atom() == th:
+                    l, r_ = r_, l
+                if isinstance(l, Rat) and l.single_atom() == th and isinstance(r_, Rat) and r_.is_zero():
+                    return truth if a.args[0] == "!=" else not truth
+        return True
     for f in pub:
         rep.functions_analysed.add(f.fq)
         I = Interp(ix, int_transparent=False)
         args = I.symbolic_args(f, flags, fixed={"min_threshold": zero})
-        forms[f.name] = (f, I.returns(f, args), I)
+        ps_ = I.paths(f, args)
+        forms[f.name] = (f, [(c_, v_) for c_, n_, v_ in ps_], I)
+        for c_, n_, v_ in ps_:
+            CNF[(f.name, c_)] = n_
 
     # ---------------------------------------------------------------- frames are processed independently
     for name, (f, rets, I) in sorted(forms.items()):
@@ -194,8 +224,8 @@ def run(rep, tier, root=None):
     wantN = IO.returns(ix.func(om.name, "cogNd"), [img])[0][1]
     by = {}
     for conds, v in rets:
-        thr = not any(c.startswith("not (threshold") for c in conds)
-        two = any(c == "len(img.shape) == 2" for c in conds)
+        thr = thresholded("centre_of_gravity", conds)
+        two = rank_of("centre_of_gravity", conds) == 2
         by[(thr, two)] = (conds, v)
     for (thr, two), (conds, v) in sorted(by.items()):
         if not thr:
@@ -239,9 +269,9 @@ def run(rep, tier, root=None):
     f, rets, I = forms["brightest_pixel"]
     kinds = {}
     for conds, v in rets:
-        if any(c == "len(img.shape) == 2" for c in conds):
+        if rank_of("brightest_pixel", conds) == 2:
             kinds["2d"] = v
-        elif any(c == "len(img.shape) == 3" for c in conds):
+        elif rank_of("brightest_pixel", conds) == 3:
             kinds["3d"] = v
     if set(kinds) != {"2d", "3d"}:
         rep.unknown("H4.rank-threshold", f.fq, "expected a 2-D and a 3-D path", f.where())
@@ -298,19 +328,31 @@ def bp2(img, threshold):
     offs = [s for s in I.store_log if s[0] == f.fq and s[5] == "="]
     # cx -= nx/2*(padding-1): recorded as assignments to the tuple stored in centroids[:, frame]
     n_ok = 0
-    for conds, v in rets:
-        pairs = []
-        for a in find_atoms(v, lambda a: isinstance(a, Fn) and a.name == "setitem"):
-            val = a.args[2]
-            if isinstance(val, tuple) and len(val) == 2:
-                pairs.append(val)
-            elif isinstance(val, Rat):
-                comp = vector_components(val)
-                if comp is not None:
-                    pairs.append(comp)
+    # the (x, y) centroid of every frame as it is stored into the result: one store of the pair, or one store per component
+    pairs = []
+    comp = {}
+    for s_ in I.store_log:
+        if s_[0] != f.fq or s_[5] != "=" or not isinstance(s_[2], tuple) or len(s_[2]) != 2:
+            continue
+        first, val = s_[2][0], s_[3]
+        fc = first.real_const() if isinstance(first, Rat) else None
+        if fc in (0, 1) and isinstance(val, Rat):
+            comp.setdefault(s_[4] // 1000, {})[int(fc)] = val        # component stores (x at row 0, y at row 1)
+            comp.setdefault("all", {}).setdefault(int(fc), []).append(val)
+        elif isinstance(val, tuple) and len(val) == 2:
+            pairs.append(val)
+        elif isinstance(val, Rat):
+            cpt = vector_components(val)
+            if cpt is not None:
+                pairs.append(cpt)
+    allc = comp.get("all", {})
+    if set(allc) == {0, 1} and len(allc[0]) == len(allc[1]):
+        pairs.extend(zip(allc[0], allc[1]))
+    if True:
+        conds = ("all rank paths",)
         for cx, cy in pairs:
-            for comp, axis, label in ((cx, -1, "x"), (cy, -2, "y")):
-                ts = comp.terms() if isinstance(comp, Rat) else None
+            for comp_, axis, label in ((cx, -1, "x"), (cy, -2, "y")):
+                ts = comp_.terms() if isinstance(comp_, Rat) else None
                 if ts is None:
                     continue
                 off = Rat({})
@@ -321,8 +363,8 @@ def bp2(img, threshold):
                 n = Rat.sym("shape(im)[%d]" % axis, ("int", "size"))
                 want_off = -(n / 2) * (Rat.sym("padding") - 1)
                 n_ok += 1
-                rep.check(same_value(off, want_off), "H5.padding-offset", "%s[%s]: %s offset == n/2*(padding-1) on axis %d"
-                          % (f.fq, "; ".join(conds), label, axis),
+                rep.check(same_value(off, want_off), "H5.padding-offset", "%s[store %d]: %s offset == n/2*(padding-1) on axis %d"
+                          % (f.fq, (n_ok + 1) // 2, label, axis),
                           "offset removed from the %s centroid is %s, expected %s" % (label, nf(off), nf(want_off)), f.where())
     if n_ok < 4:
         rep.unknown("H5.padding-offset", f.fq, "could not locate the stored (cx, cy) pair on both rank paths (%d)" % n_ok, f.where())
